@@ -7,7 +7,12 @@ import prop
 import streams
 from common import sub_seed
 
-THEOREMS = ["LNN.C07_confluent", "LNN.C07_contradiction_invariant"]
+THEOREMS = ["LNN.C07_confluent",
+            "LNN.C07_contradiction_invariant",
+            "LNN.C07_contradiction_iff",
+            "LNN.C07_run_le_fixpoint",
+            "LNN.C07_infer_vs_schedule",
+            "LNN.C07_infer_vs_infer"]
 MODULES = ["LnnVerif.Props.C07"]
 FACETS = {"bounds", "contra", "reported"}
 
